@@ -15,6 +15,14 @@ POSITION_CALLS = ("Highlight", "H", "Token", "Error", "add_highlight", "from_tok
 
 def _line_reads(prog):
     out = []
+    # attributes that remember a line number
+    line_attrs = set()
+    for fn in prog.fns:
+        for n in walk_fn(fn.node):
+            if isinstance(n, ast.Assign) and (text(n.value).endswith(".pos[0]") or text(n.value).endswith(".lineno")):
+                for t in n.targets:
+                    if isinstance(t, ast.Attribute) and t.attr not in ("lineno",):
+                        line_attrs.add(t.attr)
     for fn in prog.fns:
         rel = fn.mod.rel
         if not (rel.startswith("rules/") or rel in ("context.py", "registry.py")):
@@ -23,7 +31,7 @@ def _line_reads(prog):
             if isinstance(n, ast.Subscript) and isinstance(n.ctx, ast.Load) and isinstance(n.value, ast.Attribute) \
                     and n.value.attr == "pos" and isinstance(n.slice, ast.Constant) and n.slice.value == 0:
                 out.append((fn, n))
-            elif isinstance(n, ast.Attribute) and n.attr == "lineno" and isinstance(n.ctx, ast.Load):
+            elif isinstance(n, ast.Attribute) and (n.attr == "lineno" or n.attr in line_attrs) and isinstance(n.ctx, ast.Load):
                 out.append((fn, n))
     return out
 
@@ -75,12 +83,22 @@ def _role_of_line(fn: Fn, node, depth=0) -> List[tuple]:
             return [("SAME_LINE", text(other))]
         return [("ABSOLUTE", f"`{text(p)}`: a line number is compared with a constant / ordered")]
     if isinstance(p, ast.BinOp):
+        if isinstance(p.op, ast.Sub):
+            other = p.right if p.left is node else p.left
+            kind = _line_valued(other)
+            if kind == "line":
+                return [("DIFFERENCE", text(p))]            # line - line: invariant under insertion of lines above both
+            if kind == "maybe-constant":
+                return [("ABSOLUTE", f"`{text(p)}`: a line number minus `{text(other)}`, which is a line number on some paths "
+                                     f"but a constant default on others (then the result is the absolute line)")]
         if isinstance(p.op, (ast.Add, ast.Sub)):
             r = _role_of_line(fn, p, depth + 1)
             return r
         return [("ABSOLUTE", f"`{text(p)}`: arithmetic on a line number")]
     if isinstance(p, (ast.FormattedValue, ast.JoinedStr)):
         return _role_of_line(fn, p, depth + 1)
+    if isinstance(p, ast.Assign) and p.value is node and any(isinstance(t, ast.Attribute) for t in p.targets):
+        return [("STORE", text(p.targets[0]))]       # remembered in an attribute: its reads are line reads too (see _line_reads)
     if isinstance(p, ast.Assign) and p.value is node and len(p.targets) == 1 and isinstance(p.targets[0], ast.Name):
         out = []
         for x in walk_fn(fn.node):
@@ -94,6 +112,32 @@ def _role_of_line(fn: Fn, node, depth=0) -> List[tuple]:
     if isinstance(p, (ast.If, ast.While, ast.BoolOp, ast.UnaryOp)):
         return [("ABSOLUTE", "truthiness of a line number")]
     return [("?", type(p).__name__)]
+
+
+def _line_valued(e) -> str:
+    """'line' if the expression always holds a line number, 'maybe-constant' if it is an attribute that is also
+    initialised to a constant, 'other' otherwise."""
+    t = text(e)
+    if t.endswith(".pos[0]") or t.endswith(".lineno"):
+        return "line"
+    if isinstance(e, ast.Attribute):
+        from ..model import program
+        prog = program()
+        vals = []
+        for f in prog.fns:
+            for n in walk_fn(f.node):
+                if isinstance(n, ast.Assign):
+                    for tg in n.targets:
+                        if isinstance(tg, ast.Attribute) and tg.attr == e.attr:
+                            vals.append(n.value)
+        if vals:
+            kinds = {("line" if (text(v).endswith(".pos[0]") or text(v).endswith(".lineno")) else
+                      "const" if isinstance(v, ast.Constant) else "other") for v in vals}
+            if kinds == {"line"}:
+                return "line"
+            if "line" in kinds and "const" in kinds and "other" not in kinds:
+                return "maybe-constant"
+    return "other"
 
 
 def rule_lines_opaque(run, prog):
@@ -244,5 +288,9 @@ def check(run, prog):
     rule_isolation(run, prog)                 # R-19.2 = R-13.4
     rule_transparent(run, prog)
     from .c03 import rule_counters, rule_thresholds
-    rule_thresholds(run, prog)                # R-19.4 = R-3.1 / R-3.2 (fifth-function boundary among them)
+    try:
+        rule_thresholds(run, prog)            # R-19.4 = R-3.1 / R-3.2 (fifth-function boundary among them)
+    except AnalysisError as e:
+        run.rule("R-3.1", "see C03", floor=0)
+        run.note(f"R-3.1 could not be evaluated here (decided under C03): {e}")
     rule_counters(run, prog)
